@@ -988,6 +988,12 @@ fn replay_case(f: &RForest, rng: &mut Rng, idx: usize) -> Result<(String, String
         case["shrunk"] = serde_json::json!(shrunk);
         case["grew"] = serde_json::json!(grew);
     }
+    // a damaged heap (something the host still holds was freed) must not be used any further
+    if held_freed(&keep).is_some() {
+        case["damaged"] = serde_json::json!(true);
+        std::mem::forget(keep);
+        return Ok((model_in, impl_out, case));
+    }
     // clean up: everything goes, leaf heaps first
     drop(keep);
     for (_, th, _) in f.ths.iter().rev() {
@@ -1017,7 +1023,12 @@ fn replay_child(args: &Args, start: usize) {
         }
         let r = catch_unwind(AssertUnwindSafe(|| replay_case(&f, &mut rng, i)));
         let (a, b, c) = match r {
-            Ok(Ok(x)) => x,
+            Ok(Ok(x)) => {
+                if x.2["damaged"].as_bool() == Some(true) {
+                    std::mem::forget(std::mem::replace(&mut f, RForest::new()));
+                }
+                x
+            }
             Ok(Err(why)) if why.starts_with("held-freed") => {
                 // the heap is damaged: start over with a fresh forest
                 std::mem::forget(std::mem::replace(&mut f, RForest::new()));
@@ -1179,7 +1190,7 @@ fn main() {
         }
         let i: usize = progress.parse().unwrap_or(usize::MAX);
         creplay_crashes.push((i, status.map(|s| format!("child process died: {}", s)).unwrap_or("watchdog".into())));
-        if status.is_none() || i == usize::MAX || creplay_crashes.len() >= 5 {
+        if status.is_none() || i == usize::MAX || creplay_crashes.len() >= 12 {
             break;
         }
         // realign the three files to i lines and mark the crashed case
